@@ -97,7 +97,8 @@ def cfgs(tier):
     out.append((None, 'all'))
     pairs = list(itertools.product(A, repeat=2))
     if tier == 'quick':
-        pairs = [(a, b) for a, b in pairs if groups(a) == groups(b) and groups(a) != 'struct' and (a.split(b' ')[0] != b.split(b' ')[0])] + \
+        dupopts = (b'output', b'filter_chain', b'syslog_ident', b'syslog_facility', b'datasource_message_max_length')
+        pairs = [(a, b) for a, b in pairs if groups(a) == groups(b) and groups(a) != 'struct' and (a.split(b' ')[0] != b.split(b' ')[0] or (a.split(b' ')[0] in dupopts and len(a) < 80 and len(b) < 80))] + \
                 [(a, b) for a, b in pairs if groups(a) == 'struct' and groups(b) == 'msg' and len(b) < 60][:600]
     for a, b in pairs:
         out.append((b'[snoopy]\n' + a + b'\n' + b + b'\n', 'one'))
